@@ -263,7 +263,7 @@ fn run_emfile(t: Transport) -> (String, String, String, String) {
     let _first = TcpStream::connect(addr).ok();
     let mut healthy = TcpStream::connect(echo_addr).unwrap();
     healthy.set_read_timeout(Some(Duration::from_secs(2))).ok();
-    let mut echo = |s: &mut TcpStream| -> bool {
+    let echo = |s: &mut TcpStream| -> bool {
         let mut buf = [0u8; 4];
         s.write_all(b"ping").is_ok() && s.read_exact(&mut buf).is_ok() && &buf == b"ping"
     };
@@ -693,6 +693,77 @@ fn scenario_endings(w: &mut World, t: Transport, k: u64, rng: &mut Rng) {
         peer_end(p, reset);
     };
     match k {
+        11 if t == Transport::Ws => {
+            // the peer's Close frame arrives while a local thread is busy sending on the same endpoint (the
+            // WebSocket adapter shares one lock between its two directions): the close must still be
+            // processed and reported, the peer must see the connection end
+            if let Some(RawPeer::Ws(mut s)) = raw_connect(w, t, addr) {
+                w.pump(30);
+                let peer_addr = s.get_ref().local_addr().ok();
+                let ep = w.accepted.iter().find(|a| Some(a.0.addr()) == peer_addr).map(|a| a.0);
+                if let (Some(ep), Some(pa)) = (ep, peer_addr) {
+                    w.closed_peers.push(pa);
+                    // the controller is shareable (&self methods, Sync) but owned by the World, which is also
+                    // borrowed mutably by pump(): the sender thread gets a raw pointer and is joined before
+                    // this function returns (the World outlives it)
+                    let ctl_ptr = &w.ctl as *const NetworkController as usize;
+                    let stop = std::sync::Arc::new(std::sync::atomic::AtomicBool::new(false));
+                    let stop2 = stop.clone();
+                    let sender = std::thread::spawn(move || {
+                        let ctl: &NetworkController = unsafe { &*(ctl_ptr as *const NetworkController) };
+                        let data = vec![7u8; 64 * 1024];
+                        while !stop2.load(std::sync::atomic::Ordering::SeqCst) {
+                            ctl.send(ep, &data);
+                        }
+                    });
+                    let (tx, rx) = std::sync::mpsc::channel::<bool>();
+                    let peer = std::thread::spawn(move || {
+                        s.get_ref().set_read_timeout(Some(Duration::from_millis(20))).ok();
+                        let t0 = std::time::Instant::now();
+                        let mut closed = false;
+                        let mut saw_end = false;
+                        while t0.elapsed() < Duration::from_millis(1500) {
+                            if !closed && t0.elapsed() > Duration::from_millis(50) {
+                                let _ = s.close(None);
+                                let _ = s.flush();
+                                closed = true;
+                            }
+                            match s.read() {
+                                Ok(_) => {}
+                                Err(tungstenite::Error::Io(e)) if e.kind() == std::io::ErrorKind::WouldBlock || e.kind() == std::io::ErrorKind::TimedOut => {}
+                                Err(_) => {
+                                    saw_end = closed;
+                                    if closed {
+                                        break
+                                    }
+                                }
+                            }
+                        }
+                        let _ = tx.send(saw_end);
+                    });
+                    let mut peer_saw_end = None;
+                    for _ in 0..36 {
+                        w.pump(50);
+                        if let Ok(x) = rx.try_recv() {
+                            peer_saw_end = Some(x);
+                            break
+                        }
+                    }
+                    stop.store(true, std::sync::atomic::Ordering::SeqCst);
+                    let _ = sender.join();
+                    let _ = peer.join();
+                    w.pump(100);
+                    if w.ctl.is_ready(ep.resource_id()).is_some() || peer_saw_end != Some(true) {
+                        w.leaks.push(format!(
+                            "the peer sent a Close frame while a local thread was sending on {}: still registered: {:?}; the peer saw the connection end: {:?}",
+                            ep.resource_id(),
+                            w.ctl.is_ready(ep.resource_id()),
+                            peer_saw_end
+                        ));
+                    }
+                }
+            }
+        }
         10 if t == Transport::Ws => {
             // the node is the WebSocket *client*; an RFC 6455 style server sends a message and a Close frame
             // and then keeps its TCP connection open, waiting for the client to answer and go: the message
@@ -700,6 +771,7 @@ fn scenario_endings(w: &mut World, t: Transport, k: u64, rng: &mut Rng) {
             let l = TcpListener::bind("127.0.0.1:0").unwrap();
             let srv_addr = l.local_addr().unwrap();
             let (tx, rx) = std::sync::mpsc::channel::<bool>();
+            let (sent_tx, sent_rx) = std::sync::mpsc::channel::<()>();
             let server = std::thread::spawn(move || {
                 let Ok((s, _)) = l.accept() else { return };
                 s.set_read_timeout(Some(Duration::from_millis(1500))).ok();
@@ -710,6 +782,7 @@ fn scenario_endings(w: &mut World, t: Transport, k: u64, rng: &mut Rng) {
                 let _ = ws.send(tungstenite::Message::Binary(vec![9u8; 11].into()));
                 let _ = ws.close(None);
                 let _ = ws.flush();
+                let _ = sent_tx.send(());
                 // the server now waits for the client to go away, keeping its own socket open and untouched
                 std::thread::sleep(Duration::from_millis(1200));
                 ws.get_ref().set_read_timeout(Some(Duration::from_millis(300))).ok();
@@ -731,9 +804,18 @@ fn scenario_endings(w: &mut World, t: Transport, k: u64, rng: &mut Rng) {
             let ep = w.connect(t, srv_addr);
             eps.push(ep);
             let id = ep.resource_id();
-            // judged while the server still holds its connection open: nothing else will arrive
+            // judged 600 ms after the server has sent its Close frame, while it still holds its connection
+            // open: nothing else will arrive
+            let mut close_sent = false;
+            for _ in 0..60 {
+                w.pump(50);
+                if sent_rx.try_recv().is_ok() {
+                    close_sent = true;
+                    break
+                }
+            }
             w.pump(600);
-            if w.ctl.is_ready(id).is_some() {
+            if close_sent && w.ctl.is_ready(id).is_some() {
                 w.leaks.push(format!("the server sent a Close frame (and keeps its connection open) but {} is still registered 600 ms later: no Disconnected", id));
             }
             let mut peer_saw_end = None;
@@ -949,6 +1031,26 @@ fn scenario_udp(w: &mut World, rng: &mut Rng) {
     let (lid, addr) = w.listen(Transport::Udp);
     let mut eps = vec![];
     let raw = UdpSocket::bind("127.0.0.1:0").unwrap();
+    // a connected resource whose (foreign) peer answers with a zero-length datagram and then a normal one:
+    // both are messages; a datagram socket has no end of stream
+    if rng.chance(1, 2) {
+        let peer = UdpSocket::bind("127.0.0.1:0").unwrap();
+        peer.set_read_timeout(Some(Duration::from_millis(300))).ok();
+        let ep = w.connect(Transport::Udp, peer.local_addr().unwrap());
+        eps.push(ep);
+        w.pump(15);
+        w.send(ep, 3);
+        let mut buf = [0u8; 16];
+        if let Ok((_, from)) = peer.recv_from(&mut buf) {
+            let _ = peer.send_to(&[], from);
+            let _ = peer.send_to(&[5u8; 4], from);
+            w.pump(30);
+            let n = w.hist.iter().filter(|i| matches!(i, Item::EvMessage(x, _) if *x == ep.resource_id())).count();
+            if n != 2 {
+                w.leaks.push(format!("a zero-length datagram and a 4-byte one were sent to the connected Udp resource {}: {} Message events", ep.resource_id(), n));
+            }
+        }
+    }
     for _ in 0..rng.range(3, 9) {
         match rng.below(6) {
             0 => eps.push(w.connect(Transport::Udp, addr)),
@@ -1089,7 +1191,7 @@ fn run_scenarios(out: &mut impl std::io::Write, seed: u64, n: u64, only: Option<
         let mut r = Rng::new(1);
         scenario_conn(&mut w, Transport::Tcp, &mut r);
     }
-    const ENDINGS: u64 = 33; // 11 fixed endings x 3 stream transports, before the random scenarios
+    const ENDINGS: u64 = 36; // 12 fixed endings x 3 stream transports, before the random scenarios
     for i in 0..n + ENDINGS {
         if only.map_or(false, |k| k != i) {
             continue
